@@ -196,6 +196,7 @@ type deployRec struct {
 type assignRec struct {
 	jobInc int
 	srID   string
+	round  int
 	splits map[string]int64 // split -> cursor
 }
 
@@ -363,6 +364,11 @@ func (o *cluOpClient) Deploy(ctx context.Context, req *workerpb.DeployOperatorRe
 	}
 	o.w.mu.Lock()
 	rec.jobInc = o.w.jobInc
+	for _, d := range o.w.deploys {
+		if d.kind == "op" && d.target == rec.target {
+			o.w.c.AddTag("a surviving worker was redeployed in place")
+		}
+	}
 	o.w.deploys = append(o.w.deploys, rec)
 	o.w.mu.Unlock()
 	o.w.net.record(o.from, o.node.Host, "deploy-op", fmt.Sprintf("ops=%v srs=%v ckpts=%d id=%d", rec.ops, rec.srs, rec.nCkpt, rec.ckptID))
@@ -419,6 +425,11 @@ func (s *cluSRClient) Deploy(ctx context.Context, req *workerpb.DeploySourceRunn
 	}
 	s.w.mu.Lock()
 	rec.jobInc = s.w.jobInc
+	for _, d := range s.w.deploys {
+		if d.kind == "sr" && d.target == rec.target {
+			s.w.c.AddTag("a surviving worker was redeployed in place")
+		}
+	}
 	s.w.deploys = append(s.w.deploys, rec)
 	s.w.mu.Unlock()
 	s.w.net.record("job", s.node.Host, "deploy-sr", fmt.Sprintf("ops=%v", rec.ops))
@@ -434,6 +445,7 @@ func (s *cluSRClient) AssignSplits(ctx context.Context, splits []*workerpb.Sourc
 	rec := assignRec{srID: s.node.Id, splits: map[string]int64{}}
 	for _, sp := range splits {
 		rec.splits[sp.SplitId] = decodeCursor(sp.Cursor)
+		fmt.Sscanf(sp.SourceId, "sim/%d", &rec.round)
 	}
 	s.w.mu.Lock()
 	rec.jobInc = s.w.jobInc
@@ -530,6 +542,10 @@ type simSource struct {
 	paceMS  int64
 	mu      sync.Mutex
 	readers int
+	rounds  int
+	// per splitter incarnation (= job start): what it assigned, and from which checkpoint
+	roundAssign map[int]map[string]map[string]int64
+	roundCkpt   map[int]uint64
 }
 
 func (s *simSource) Validate() error { return nil }
@@ -537,7 +553,11 @@ func (s *simSource) ProtoMessage() *jobconfigpb.Source {
 	return &jobconfigpb.Source{Config: &jobconfigpb.Source_Embedded{Embedded: &jobconfigpb.EmbeddedSource{SplitCount: int32(len(s.splits))}}}
 }
 func (s *simSource) NewSourceSplitter(srIDs []string, hooks connectors.SourceSplitterHooks, errChan chan<- error) connectors.SourceSplitter {
-	return &simSplitter{src: s, srIDs: srIDs, hooks: hooks}
+	s.mu.Lock()
+	s.rounds++
+	round := s.rounds
+	s.mu.Unlock()
+	return &simSplitter{src: s, srIDs: srIDs, hooks: hooks, round: round}
 }
 func (s *simSource) NewSourceReader(hooks connectors.SourceReaderHooks) connectors.SourceReader {
 	s.mu.Lock()
@@ -554,6 +574,7 @@ type simSplitter struct {
 	src   *simSource
 	srIDs []string
 	hooks connectors.SourceSplitterHooks
+	round int
 }
 
 func (s *simSplitter) IsSourceSplitter()                              {}
@@ -572,9 +593,25 @@ func (s *simSplitter) Start(ckpt *snapshotpb.SourceCheckpoint) error {
 		}
 	}
 	assignments := map[string][]*workerpb.SourceSplit{}
+	rec := map[string]map[string]int64{}
+	defer func() {
+		s.src.mu.Lock()
+		if s.src.roundAssign == nil {
+			s.src.roundAssign, s.src.roundCkpt = map[int]map[string]map[string]int64{}, map[int]uint64{}
+		}
+		s.src.roundAssign[s.round] = rec
+		if ckpt != nil {
+			s.src.roundCkpt[s.round] = ckpt.CheckpointId
+		}
+		s.src.mu.Unlock()
+	}()
+	for _, sr := range s.srIDs {
+		rec[sr] = map[string]int64{}
+	}
 	for i := range s.src.splits {
 		id := fmt.Sprint(i)
-		sp := &workerpb.SourceSplit{SplitId: id, SourceId: "sim"}
+		sp := &workerpb.SourceSplit{SplitId: id, SourceId: fmt.Sprintf("sim/%d", s.round)}
+		rec[s.srIDs[i%len(s.srIDs)]][id] = cursors[id]
 		if c, ok := cursors[id]; ok {
 			sp.Cursor = encodeCursor(c)
 		}
